@@ -105,3 +105,10 @@ Definition check_rows (rs : list rrow) (real : list Z) (ks : list Z) : Z :=
   (if list_eqb (e_batch rs) real then 0 else 2) +
   (match d_batch real with Some rs' => if list_eqb (e_batch rs') real then 0 else 4 | None => 4 end) +
   (if forallb (fun k => match d_batch (firstn (Z.to_nat k) real) with None => true | Some _ => false end) ks then 0 else 8).
+
+(* record.Marshal: 1 a length-field bound is broken; 2 e_record differs from the real bytes; 4 the model decoder does
+   not return the record from the real bytes *)
+Definition check_record (r : rrecord) (real : list Z) : Z :=
+  (if record_ok r then 0 else 1) +
+  (if list_eqb (e_record r) real then 0 else 2) +
+  (match d_record real with Some (r', []) => if list_eqb (e_record r') real then 0 else 4 | _ => 4 end).
